@@ -48,6 +48,23 @@ def _callers_of(w, body_id):
     return out
 
 
+def _derives_from_unit(w, b, pv, operand, depth=0):
+    """can the operand's value depend on Config.tab_spaces?  (local provenance; helper results are looked into one level)"""
+    for x in pv.origins_operand(operand):
+        x = strip_casts(x)
+        if _is_unit_param_origin(w, b, x):
+            return True
+        if x[0] == 'binop':
+            rv = b.blocks[x[1][0]]['stmts'][x[1][1]]['rv']
+            if _derives_from_unit(w, b, pv, rv['a'], depth + 1) or _derives_from_unit(w, b, pv, rv['b'], depth + 1):
+                return True
+        if x[0] == 'call' and depth < 2:
+            t = pv.call_term(x)
+            if any(_derives_from_unit(w, b, pv, a, depth + 1) for a in t['args']):
+                return True
+    return False
+
+
 def _amount_ok(w, b, pv, o, depth=0):
     """returns (ok, why)"""
     o = strip_casts(o)
@@ -68,6 +85,19 @@ def _amount_ok(w, b, pv, o, depth=0):
                 if not ok:
                     return False, 'call site in %s passes %s' % (cb.short, why)
         return True, 'by-value parameter; all %d call sites pass Config.tab_spaces' % len(callers)
+    if o[0] == 'const' and o[1][1] == 0:
+        return True, 'nest(0): the identity'
+    if o[0] == 'binop' and o[1][2].startswith('Mul') and o[2] in ((), (('f', 0),)) and depth < 3:
+        # k * unit with k independent of the unit (`levels * tab_spaces`): still a multiple of the unit
+        rv = b.blocks[o[1][0]]['stmts'][o[1][1]]['rv']
+        sides = []
+        for side in (rv['a'], rv['b']):
+            so_ = [strip_casts(x) for x in pv.origins_operand(side)]
+            sides.append(bool(so_) and all(_amount_ok(w, b, pv, x, depth + 1)[0] and not (x[0] == 'const') for x in so_))
+        if sides.count(True) == 1:
+            other = rv['b'] if sides[0] else rv['a']
+            if not _derives_from_unit(w, b, pv, other):
+                return True, 'a count independent of the unit times Config.tab_spaces'
     if o[0] == 'call' and not o[2] and depth < 3:
         # a helper of typstyle-core that returns the unit (`fn indent_unit(&self) -> isize { self.config.tab_spaces as isize }`)
         t = pv.call_term(o)
@@ -81,6 +111,25 @@ def _amount_ok(w, b, pv, o, depth=0):
                     if not ok:
                         return False, '%s returns %s' % (cb.short, why)
                 return True, 'returned by %s, which returns Config.tab_spaces' % cb.short
+    if o[0] == 'param' and o[2] == (('v', 1), ('f', 0)) and b.def_kind != 'Closure' and depth < 3 and b.locals[o[1]]['ty']['s'].startswith('std::option::Option<'):
+        # the payload of an `Option<amount>` parameter: every caller passes None or Some(unit)
+        callers = _callers_of(w, b.id)
+        if not callers:
+            return False, 'Option parameter of %s has no call sites' % b.short
+        for (cb, bi, t) in callers:
+            cpv = Prov(cb)
+            for co in cpv.peel(cpv.origins_operand(t['args'][o[1] - 1])):
+                co = strip_casts(co)
+                if co[0] == 'agg' and cpv.agg_rvalue(co).get('vname') == 'None':
+                    continue
+                if co[0] == 'agg' and cpv.agg_rvalue(co).get('vname') == 'Some':
+                    for xo in cpv.origins_operand(cpv.agg_rvalue(co)['ops'][0]):
+                        ok, why = _amount_ok(w, cb, cpv, xo, depth + 1)
+                        if not ok:
+                            return False, 'call site in %s passes Some(%s)' % (cb.short, why)
+                    continue
+                return False, 'call site in %s passes %s' % (cb.short, fmt_origin(co, cb))
+        return True, 'payload of an Option parameter; all %d call sites pass None or Some(Config.tab_spaces)' % len(callers)
     if o[0] == 'param' and o[1] == 1 and o[2] and b.def_kind == 'Closure' and depth < 3:
         # a captured variable of a closure: judged where the closure is created
         fld = [e for e in o[2] if e[0] == 'f']
@@ -121,6 +170,10 @@ def r1_nest_amounts(w):
                 bad = why
             if bad is None:
                 r.ok(cons, 'unit')
+                # a helper that indents the document it is given (`fn indent(&self, doc) -> Doc { doc.nest(unit) }`): every use of it is a use of nest
+                if b.def_kind != 'Closure' and b.locals[0]['ty']['s'].startswith('pretty::DocBuilder') and len(list(b.calls())) <= 3:
+                    for (cb, cbi, ct) in _callers_of(w, b.id):
+                        r.ok({'fn': cb.short, 'call': 'nest via %s' % b.short.rsplit('::', 1)[-1], 'bb': cbi}, 'unit (through the indenting helper)')
             else:
                 r.bad(cons, '%s|nest|%s' % (b.short, _keyify(bad)),
                       'nest amount in %s is not the configured indent unit: %s' % (b.short, bad), b.loc(t['span']))
@@ -192,13 +245,38 @@ def r3_unit_flows_only_to_nest(w):
         for u in _loads_of_unit(w, b):
             _judge_use(w, r, b, u, work, direct=True)
     done = set()
+    SOME = (('v', 1), ('f', 0))
     while work:
-        b, l = work.pop()
-        if (b.id, l) in done:
+        item = work.pop()
+        b, l = item[0], item[1]
+        wrapped = len(item) > 2 and item[2] == 'some'
+        if (b.id, l, wrapped) in done:
             continue
-        done.add((b.id, l))
+        done.add((b.id, l, wrapped))
         for u in iter_uses(b):
-            if u['local'] != l or u['proj']:
+            if u['local'] != l:
+                continue
+            if wrapped:
+                # an Option holding the unit (`follow_indent: Option<isize>`): whole moves / arguments hand the Option on, the Some payload is the unit again,
+                # its discriminant may be tested (whether to indent at all is not a property of the unit's value)
+                if u['proj'] == SOME and u['how'] in ('use', 'cast') and not u['dest'][1]:
+                    work.append((b, u['dest'][0]))
+                    r.ok({'fn': b.short, 'use': 'payload of Option', 'bb': u['bb']}, 'copy/cast')
+                elif not u['proj'] and u['how'] == 'use' and not u['dest'][1]:
+                    work.append((b, u['dest'][0], 'some'))
+                elif not u['proj'] and u['how'] == 'call-arg':
+                    cb = w.bodies.get(resolved_id(u['term']))
+                    if cb is not None and cb.crate is w.core:
+                        work.append((cb, u['index'] + 1, 'some'))
+                    else:
+                        r.bad({'fn': b.short, 'use': 'Option<unit> argument', 'bb': u['bb']}, '%s|call|%s' % (b.short, callee_path(u['term'])),
+                              'an Option holding the indent unit is passed to `%s` in %s' % (callee_path(u['term']), b.short), b.loc(u['term']['span']))
+                elif not u['proj'] and u['how'] == 'discr':
+                    continue
+                elif u['proj'] == SOME and u['how'] == 'call-arg':
+                    _judge_use(w, r, b, dict(u, proj=()), work, direct=False)
+                continue
+            if u['proj']:
                 continue
             _judge_use(w, r, b, u, work, direct=False)
     # derived trait impls on Config (PartialEq/Hash/Debug/...) compare the field: they must not be reachable from formatting
@@ -281,6 +359,12 @@ def _judge_use(w, r, b, u, work, direct):
         if rv['ak'] == 'adt' and rv['adt'] == CONFIG_ID:
             r.ok(cons, 'copied into another Config')
             return
+        if rv['ak'] == 'adt' and rv.get('path', '').endswith('option::Option') and rv.get('vname') == 'Some':
+            dl, dp = u['dest']
+            if not dp:
+                work.append((b, dl, 'some'))
+                r.ok(cons, 'wrapped in Some(..): followed as an optional indent')
+                return
         if rv['ak'] == 'closure' and rv['def']['id'] in w.bodies:
             # captured by a closure: the flow continues at the closure's reads of that captured variable
             cb = w.bodies[rv['def']['id']]
@@ -300,6 +384,23 @@ def _judge_use(w, r, b, u, work, direct):
             work.append((b, dl))
             r.ok(cons, 'borrow')
             return
+    if how == 'binop' and str(u.get('op', '')).startswith('Mul'):
+        # unit * k: fine as long as k does not depend on the unit; the product is followed like the unit itself (R1 judges where it ends up)
+        pv_ = Prov(b)
+        rv = u['rv']
+        other = rv['b'] if (rv['a'].get('p', {}).get('l') == u['local']) else rv['a']
+        if not _derives_from_unit(w, b, pv_, other):
+            dl, dp = u['dest']
+            if not dp:
+                work.append((b, dl))
+                # MulWithOverflow yields (value, overflowed): the value is read through field 0
+                for u2 in iter_uses(b):
+                    if u2['local'] == dl and u2['proj'] == (('f', 0),) and u2['how'] in ('use', 'cast') and not u2['dest'][1]:
+                        work.append((b, u2['dest'][0]))
+            r.ok(cons, 'multiplied by a count that does not depend on the unit')
+            return
+    if how in ('use', 'cast') and u['proj'] == (('f', 1),):
+        return          # the overflow flag of a checked multiplication
     r.bad(cons, '%s|%s' % (b.short, how + ('-' + u.get('op', '') if u.get('op') else '')),
           'indent unit is used in a %s%s in %s: the number of indentation steps or a layout decision can depend on the unit'
           % (how, (' ' + u['op']) if u.get('op') else '', b.short), loc)
